@@ -79,6 +79,18 @@ static const TSLanguage *dump(const char *id, const char *so, const char *fn, un
     printf("fld %u ", i); hexs(name);
     printf(" %u\n", (unsigned)ts_language_field_id_for_name(l, name, (uint32_t)strlen(name)));
   }
+  {
+    uint32_t nsup = 0;
+    const TSSymbol *sups = ts_language_supertypes(l, &nsup);
+    for (uint32_t i = 0; i < nsup; i++) {
+      uint32_t nsub = 0;
+      const TSSymbol *subs = ts_language_subtypes(l, sups[i], &nsub);
+      printf("sup %u ", (unsigned)sups[i]);
+      if (!nsub) printf("-");
+      for (uint32_t j = 0; j < nsub; j++) printf("%s%u", j ? "," : "", (unsigned)subs[j]);
+      printf("\n");
+    }
+  }
   printf("endlang %s\n", id);
   fflush(stdout);
   return l;
